@@ -7,9 +7,11 @@
 package c18
 
 import (
+	"fmt"
 	"math"
 	"os"
 	"strconv"
+	"strings"
 	"testing"
 
 	"github.com/biogo/biogo/alphabet"
@@ -428,6 +430,23 @@ func genWrap(t *rapid.T) wrapCase {
 	return c
 }
 
+// rendered compares a textual rendering of a score container with the encoded bytes of its positions.
+func rendered(what string, text func() string, encoded func(i int) byte, n int) (f *vlib.Failure) {
+	defer func() {
+		if r := recover(); r != nil {
+			f = vlib.Failf("wrap-rendering-panic", "%s panicked: %v", what, r)
+		}
+	}()
+	want := make([]byte, n)
+	for i := range want {
+		want[i] = encoded(i)
+	}
+	if got := text(); got != string(want) {
+		return vlib.Failf("wrap-rendering", "%s = %q, the encoded scores are %q", what, got, want)
+	}
+	return nil
+}
+
 func checkWrap(c wrapCase) *vlib.Failure {
 	e := alphabet.Encoding(c.Enc)
 	p := math.Pow(10, -float64(c.SetX)/100)
@@ -451,6 +470,10 @@ func checkWrap(c wrapCase) *vlib.Failure {
 					return vlib.Failf("wrap-roundtrip", "Solexa QDecode(QEncode(%d)) = %d want %d", pos, got, s)
 				}
 			}
+		}
+		// the whole container rendered as text is the encoded byte of every position, in order
+		if f := rendered("Solexa.String()", func() string { return q.String() }, func(i int) byte { return q.QEncode(c.Offset + i) }, len(c.Scores)); f != nil {
+			return f
 		}
 		if p < 1 {
 			pos := c.Offset + c.SetPos
@@ -494,6 +517,28 @@ func checkWrap(c wrapCase) *vlib.Failure {
 				return vlib.Failf("wrap-encode-byte", "QSeq.QEncode(%d) = %d want %d", pos, ls.QEncode(pos), s+off)
 			}
 		}
+	}
+	// the whole container rendered as text is the encoded byte of every position, in order; for the
+	// sequence type the text is the quality line of its FASTQ rendering (whatever the offset)
+	if f := rendered("Phred.String()", func() string { return q.String() }, func(i int) byte { return q.QEncode(c.Offset + i) }, len(c.Scores)); f != nil {
+		return f
+	}
+	if f := rendered("the quality line of fmt %q of a linear.QSeq", func() string {
+		lines := strings.Split(fmt.Sprintf("%q", ls), "\n")
+		if len(lines) != 4 {
+			return fmt.Sprintf("(%d lines) %q", len(lines), lines)
+		}
+		// (scores outside the encoding's printable range are shown in some other way; their
+		// positions are left out of the comparison)
+		b := []byte(lines[3])
+		for i, sc := range c.Scores {
+			if i < len(b) && (sc < lo || sc > hi) {
+				b[i] = ls.QEncode(c.Offset + i)
+			}
+		}
+		return string(b)
+	}, func(i int) byte { return ls.QEncode(c.Offset + i) }, len(c.Scores)); f != nil {
+		return f
 	}
 	// the same containers under another encoding
 	e2 := alphabet.Encoding(c.Enc2)
